@@ -330,6 +330,9 @@ def judge(W, spec, rec):
         raise procs.HarnessTimeout("simulated run did not finish")
     if rec["outcome"] in ("deadlock", "step-budget"):
         return {"class": rec["outcome"], "detail": {"steps": rec["steps"], "budget": spec["budget"]}}
+    if rec.get("state_diff"):
+        # all calls have returned, yet a process-global interpreter setting is not what it was
+        return {"class": "interpreter_state_changed", "detail": rec["state_diff"]}
     K = spec["table"]
     for t, calls in enumerate(spec["threads"]):
         for j, c in enumerate(calls):
